@@ -100,6 +100,7 @@ type monState struct {
 	deliveredKV map[uint64]string
 	putApplied  map[uint64]int
 	curPayloads [][]byte
+	curTypes    []pb.EntryType
 	curCC       []byte
 	curCCType   pb.EntryType
 	curRead     []byte
@@ -1063,6 +1064,25 @@ func (w *World) monElection(n *node, kind string, in *pb.Message, pre, post *raf
 		}
 		n.grants[in.GetFrom()] = true
 	}
+	if newCandidacy || post.Role == raft.StateFollower || post.Role == raft.StateLeader || (post.Role == raft.StatePreCandidate && pre.Role != raft.StatePreCandidate) {
+		n.answers = nil
+	}
+	if in != nil && (in.GetType() == pb.MsgVoteResp && pre.Role == raft.StateCandidate && in.GetTerm() == pre.Term ||
+		in.GetType() == pb.MsgPreVoteResp && pre.Role == raft.StatePreCandidate && (in.GetTerm() == pre.Term+1 && !in.GetReject() || in.GetTerm() == pre.Term && in.GetReject())) {
+		if n.answers == nil {
+			n.answers = map[uint64]bool{}
+		}
+		if _, seen := n.answers[in.GetFrom()]; !seen {
+			n.answers[in.GetFrom()] = !in.GetReject()
+		}
+		if post.Role == pre.Role && post.Term == pre.Term {
+			// still campaigning: the answers delivered so far must not already decide the vote
+			if model.JointVote(post.Conf.GetVoters(), post.Conf.GetVotersOutgoing(), n.answers) == model.VoteLost {
+				w.violate("C12", []string{"C02"}, "node %d (%v, term %d) keeps campaigning although the answers delivered to it (%v) make a majority impossible in configuration %s", n.id, post.Role, post.Term, n.answers, confOf(post.Conf))
+			}
+			w.Stats["vote-tallies-checked"]++
+		}
+	}
 	if in != nil && in.GetType() == pb.MsgPreVoteResp && !in.GetReject() && pre.Role == raft.StatePreCandidate && in.GetTerm() == pre.Term+1 {
 		if n.pregrants == nil {
 			n.pregrants = map[uint64]bool{}
@@ -1074,6 +1094,7 @@ func (w *World) monElection(n *node, kind string, in *pb.Message, pre, post *raf
 			// a new pre-campaign started in this call: grants delivered before it do not count
 			if !(in != nil && in.GetType() == pb.MsgPreVoteResp) {
 				n.pregrants = nil
+				n.answers = nil
 			}
 			break
 		}
@@ -1181,6 +1202,9 @@ func (w *World) monElection(n *node, kind string, in *pb.Message, pre, post *raf
 	if post.Role == raft.StateCandidate && post.Term > pre.Term && in != nil && in.GetType() == pb.MsgTimeoutNow {
 		w.Stats["transfer-campaigns"]++
 	}
+	if in != nil && in.GetType() == pb.MsgPreVoteResp && !in.GetReject() && post.Term > pre.Term && post.Role != raft.StateCandidate {
+		w.violate("C17", []string{"C07"}, "node %d raised its term %d -> %d on a granted MsgPreVoteResp without becoming a candidate (role %v -> %v)", n.id, pre.Term, post.Term, pre.Role, post.Role)
+	}
 	// C17(b)
 	if in != nil && in.GetType() == pb.MsgPreVote {
 		if post.Term != pre.Term || post.Vote != pre.Vote {
@@ -1227,7 +1251,7 @@ func (w *World) monElection(n *node, kind string, in *pb.Message, pre, post *raf
 			n.leadTicks++
 		}
 		now := n.leadTicks
-		if in != nil && in.GetFrom() != 0 && in.GetFrom() != n.id {
+		if in != nil && in.GetFrom() != 0 && in.GetFrom() != n.id && !raft.IsLocalMsgTarget(in.GetFrom()) {
 			n.lastHeard[in.GetFrom()] = now
 		}
 		if kind == "transfer" || kind == "applycc" || (in != nil && in.GetType() == pb.MsgTransferLeader) {
